@@ -123,6 +123,24 @@ def _header_end(lang: str, text: str) -> int:
     return i
 
 
+def _class_at_limit():
+    body = ["class AtLimit:", "    def first(self):", "        return 1", "", "    def second(self):", "        value = 2", "", "        return value", "", "", "class OverMethods:"]
+    body += [ln for i in range(3) for ln in (f"    def m{i}(self):", f"        return {i}", "")]
+    return "\n".join(body)
+
+
+# supplementary programs that sit exactly ON a limit (the documented examples are all far above
+# theirs, so an edit that moves a count by one goes unnoticed on them): (linter, language, key,
+# files, config).  Each also carries one plain violation so that the unedited run is not empty.
+EXTRA = [
+    ("nesting", "python", "elif-at-limit", {"mod.py": "def over_limit(a, b):\n    if a:\n        for x in b:\n            while x:\n                if x > a:\n                    work(x)\n    return a\n\n\ndef at_limit(a, b):\n    if a:\n        work(a)\n    elif b:\n        for x in b:\n            if x:\n                work(x)\n    elif a is None:\n        work(b)\n    else:\n        for y in a:\n            work(y)\n    return b\n"}, {"nesting": {"max_nesting_depth": 4}}),
+    ("nesting", "typescript", "else-if-at-limit", {"mod.ts": "function overLimit(a: number, b: number[]) {\n  if (a) {\n    for (const x of b) {\n      while (x) {\n        if (x > a) {\n          work(x);\n        }\n      }\n    }\n  }\n  return a;\n}\n\nfunction atLimit(a: number, b: number[]) {\n  if (a) {\n    work(a);\n  } else if (b) {\n    for (const x of b) {\n      if (x) {\n        work(x);\n      }\n    }\n  } else {\n    work(b);\n  }\n  return b;\n}\n"}, {"nesting": {"max_nesting_depth": 4}}),
+    ("srp", "python", "class-at-max-loc", {"mod.py": _class_at_limit()}, {"srp": {"max_methods": 2, "max_loc": 6, "check_keywords": False}}),
+    ("magic-numbers", "python", "open-block-at-eof", {"mod.py": "def first():\n    return 3601\n\n\n# thailint: ignore-start magic-numbers\ndef second():\n    return 3602\n"}, {}),
+    ("improper-logging", "python", "open-block-at-eof", {"mod.py": "def first(v):\n    print(v)\n\n\n# thailint: ignore-start improper-logging\ndef second(v):\n    print(v)\n"}, {}),
+]
+
+
 def _setups():
     out = []
     for name, lang, fs, cfg in load.all_triggers(skip=("file-placement",)):
@@ -133,7 +151,9 @@ def _setups():
 
 
 def items(tier: str, seed: int):
-    return [{"linter": n, "lang": lg, "pairs": tier == "thorough"} for n, lg in _setups()]
+    out = [{"linter": n, "lang": lg, "pairs": tier == "thorough"} for n, lg in _setups()]
+    out += [{"linter": e[0], "lang": e[1], "extra": i, "pairs": tier == "thorough"} for i, e in enumerate(EXTRA)]
+    return out
 
 
 def _run(cmd, prefix, files, cfg):
@@ -155,6 +175,8 @@ def run_item(item) -> Acc:
     prefix = load.COMMAND_PREFIX[cmd][0]
     files = dict(load.trigger_files(name, lang))
     cfg = load.trigger_config(name, lang)
+    if item.get("extra") is not None:
+        files, cfg = dict(EXTRA[item["extra"]][3]), dict(EXTRA[item["extra"]][4])
     target = sorted(files)[0]
     text = files[target]
     if not text.endswith("\n"):
@@ -214,7 +236,7 @@ def run_item(item) -> Acc:
         ind = ""
         if b <= nl:
             ind = lines[b - 1][: len(lines[b - 1]) - len(lines[b - 1].lstrip())]
-        for kind, ins in (("blank-line", ""), ("comment-line", f"{ind}{cm} an unrelated remark")):
+        for kind, ins in (("blank-line", ""), ("comment-line", f"{ind}{cm} an unrelated remark"), ("whitespace-only-line", ind + "  ")):
             nt = "\n".join(lines[: b - 1] + [ins] + lines[b - 1 :]) + "\n"
             check(kind, b, nt, lambda x, b=b: x + 1 if x >= b else x)
     # E3: trailing whitespace on every line that is not inside a multi-line token
@@ -223,6 +245,12 @@ def run_item(item) -> Acc:
             continue
         nt = "\n".join(lines[: i - 1] + [lines[i - 1] + "   "] + lines[i:]) + "\n"
         check("trailing-whitespace", i, nt, lambda x: x)
+    # E3b: whitespace put on every blank line
+    for i in range(1, nl + 1):
+        if i in bad or (i + 1) in bad or i <= hdr or lines[i - 1].strip() or lines[i - 1]:
+            continue
+        nt = "\n".join(lines[: i - 1] + ["    "] + lines[i:]) + "\n"
+        check("whitespace-on-blank-line", i, nt, lambda x: x)
     # E4: consistent re-indentation
     clean = not bad and all((len(ln) - len(ln.lstrip(" "))) % 4 == 0 and "\t" not in ln for ln in lines)
     if clean and name not in HEADER_SENSITIVE:
@@ -256,7 +284,10 @@ def run_item(item) -> Acc:
     for (kind, mode), lst in fails.items():
         c0 = lst[0]
         sig = {"linter": name, "lang": lang, "edit": kind, "mode": mode}
-        if name == "dry" and kind in ("blank-line", "comment-line"):
+        if item.get("extra") is not None:
+            sig["example"] = EXTRA[item["extra"]][2]
+            c0["extra"] = item["extra"]
+        if name == "dry" and kind in ("blank-line", "comment-line", "whitespace-only-line"):
             # one root cause: which of the overlapping duplicate windows is kept depends on the
             # physical line spans, so a line inserted inside a duplicated block re-selects them
             sig = {"linter": "dry", "edit": "line-inserted-inside-duplicated-block", "mode": "duplicate-windows-reselected"}
@@ -276,5 +307,8 @@ def replay_case(case) -> list[dict]:
         print(f"--- {n} ---\n{c!r}"[:3000])
     print(f"$ thailint {case['cmd']} --format json .\nexit={r['exit_code']}\n{r['stdout'][:1500]}\nexpected (shifted baseline): {case['want']}")
     remove(root)
-    a = run_item({"linter": case["linter"], "lang": case["lang"], "pairs": False})
+    it = {"linter": case["linter"], "lang": case["lang"], "pairs": False}
+    if case.get("extra") is not None:
+        it["extra"] = case["extra"]
+    a = run_item(it)
     return [f for f in a.failures if f["signature"].get("edit") == case["edit"]]
